@@ -154,6 +154,9 @@ def search(run, info):
     dd_n, dd_bad = rules_corr.check_datadecl(run, au + tu[:: (5 if run.tier == "quick" else 1)], info, "c02")
     # the resolution of bare identifiers in expressions (xform_resolve_late_bound_expr_kind) against its Coq model
     ek_n, ek_bad = rules_corr.check_exprkind(run, sc_sets[:: (2 if run.tier == "quick" else 1)] + aimed[:: (3 if run.tier == "quick" else 1)], info, "c02")
+    # the three rules on type declarations with their labels (Model/DeclRules.v), on units aimed at them and the generated ones
+    du = [[("u.st", rules_corr.gen_decl_unit(rng))] for _ in range(500 if run.tier == "quick" else 6000)]
+    dr_n, dr_bad = rules_corr.check_declrules(run, du + sc_sets[:: (4 if run.tier == "quick" else 1)], info, "c02")
     # correspondence of the proved rule models with the implementation
     mcases = []
     mlines = []
@@ -212,6 +215,7 @@ def search(run, info):
         "type_fact_streams_compared_with_model": ty_n,
         "expression_event_streams_compared_with_model": ek_n,
         "data_declaration_streams_compared_with_model": dd_n,
+        "type_declaration_rule_streams_compared_with_model": dr_n,
         "exhaustive": False}}
 
 
